@@ -55,6 +55,11 @@ def all_pairs_32():
     return [[('insert', v[0], v[1], 1), ('query', q[0], q[1], 'full')] for v in rs for q in rs]
 
 
+# C14 through the public API: concrete domains around the 16/17-point threshold, powers of two +-1, negative and full-width
+C14_DOMAINS = [(0, 14), (0, 15), (0, 16), (5, 21), (-8, 7), (-8, 8), (0, 31), (0, 32), (0, 100), (-50, 77), (0, 127), (0, 128), (-1000, 1000),
+               (-65536, 65535), (-65536, 65536), (0, 2147483647), (-2147483648, 2147483647), (-2147483648, -2147483632), (2147483631, 2147483647)]
+
+
 def _run(job):
     return run_seg_job(job)
 
@@ -62,8 +67,13 @@ def _run(job):
 def run(pid, tier, seed, procs=None):
     t0 = time.time()
     mir, mirhash, mir_s = common.dump_mir()
-    tags = {'C03': ['C03:'], 'C16': ['C16:'], 'C12': ['C12:', 'C03:'], 'C15': ['C15:', 'C03:'], 'C10': ['C10:']}[pid]
-    tpls = [((0, 31), t) for t in templates(pid, tier, FAMILY32, QUERIES32, (0, 31))]
+    tags = {'C03': ['C03:'], 'C16': ['C16:'], 'C12': ['C12:', 'C03:'], 'C15': ['C15:', 'C03:'], 'C10': ['C10:'], 'C14': ['C14:', 'C03:']}[pid]
+    tpls = [((0, 31), t) for t in templates(pid, tier, FAMILY32, QUERIES32, (0, 31))] if pid != 'C14' else []
+    if pid == 'C14':
+        for lo, hi in C14_DOMAINS:
+            mid = lo + (hi - lo) // 2
+            tpls.append(((lo, hi), [('insert', lo, lo, 1), ('insert', hi, hi, 2), ('query', lo, lo, 'full'), ('query', hi, hi, 'full'),
+                                    ('insert', lo, hi, 3), ('query', mid, mid, 'full')]))
     if pid in ('C03', 'C16', 'C10'):
         tpls += [(DOM128, t) for t in templates(pid, tier, FAMILY128, QUERIES128, DOM128)]
         tpls += [(DOM101, t) for t in templates(pid, tier, FAMILY101, QUERIES101, DOM101)]
@@ -85,13 +95,27 @@ def run(pid, tier, seed, procs=None):
             results += r
     mine = lambda tag: any(tag.startswith(t) for t in tags) or tag.startswith('C10:')
     inconclusive, confirmed, lines = [], [], []
+    post_tags = {}
     paths = obl = queries = 0
     cpu = 0.0
-    post_tags = {}
     fns = set()
     samples = []
     seen_keys = set()
     for r in results:
+        if pid == 'C14' and 'error' not in r:
+            lo, hi = r['domain']
+            built = not r.get('new_is_none')
+            want = hi - lo + 1 > 16
+            post_tags['C14:construction-some-iff-more-than-16-points'] = post_tags.get('C14:construction-some-iff-more-than-16-points', 0) + 1
+            if built != want:
+                h = {'kind': 'seg', 'lo': lo, 'hi': hi, 'ops': []}
+                nat = common.run_replay(h, 'dev')
+                natively_none = any(f[1] == 'C14:builds' for f in nat['findings'])
+                if natively_none == (not built):
+                    confirmed.append({'key': f'C14:construction|seg|new|{"none" if not built else "some"}', 'tag': 'C14:construction-some-iff-more-than-16-points',
+                                      'history': h, 'native': [f'SegExpTree::new([{lo},{hi}]) is {"None" if not built else "Some"}; {hi - lo + 1} points']})
+                else:
+                    inconclusive.append(f'C14 construction verdict for [{lo},{hi}] differs between executor and native')
         if 'error' in r:
             inconclusive.append(f'seg job error {r["error"][:300]} {r.get("trace", "")[-300:]}')
             continue
